@@ -135,6 +135,10 @@ class Session:
 
         secret_list = self.find_session_secrets()
 
+        if tls_version != TlsVersion.TLS13:
+            # up to TLS 1.2 the (pre-)master secret line counts, wherever it stands among the lines of this client random
+            secret_list = [secret for secret in secret_list if secret.label in ("CLIENT_RANDOM", "RSA")]
+
         if len(secret_list) == 0:
             logging.error(f"Missing Secrets\n"
                           f"Server IP: {self.binary_to_ip(self.server_ip)}\n"
